@@ -74,6 +74,31 @@ example : Gen.matrix_Augment #[#[1, 2], #[3, 4]] #[#[5], #[6]] = some (#[#[1, 2,
   decide +kernel
 example : Gen.identityMatrix 2 = some (#[#[1, 0], #[0, 1]], none) := by decide +kernel
 
+/-- `newMatrix` with a non-positive row count reports `errInvalidRowSize`, for every pair of `int`s -/
+theorem C17m_newMatrix_rows (rows cols : Int) (h : rows ≤ 0) :
+    Gen.newMatrix rows cols = some (#[], some "errInvalidRowSize") := by
+  unfold Gen.newMatrix
+  rw [if_pos h]
+  rfl
+
+/-- `newMatrix` with a positive row count and a non-positive column count reports `errInvalidColSize` -/
+theorem C17m_newMatrix_cols (rows cols : Int) (hr : 0 < rows) (h : cols ≤ 0) :
+    Gen.newMatrix rows cols = some (#[], some "errInvalidColSize") := by
+  unfold Gen.newMatrix
+  rw [if_neg (by omega), if_pos h]
+  rfl
+
+/-- `IsSquare` of an `n × w` matrix (`n > 0`) answers `n = w` -/
+theorem C17m_IsSquare (n w : Nat) (E : Nat → Nat → Nat) (hn : 0 < n) :
+    Gen.matrix_IsSquare (arr n w E) = some (decide (n = w)) := by
+  unfold Gen.matrix_IsSquare
+  rw [show (0 : Int) = ((0 : Nat) : Int) from rfl, gidx_arr hn]
+  simp only [Option.bind_eq_bind, Option.bind_some, Option.pure_def, size_arr, GenMatrix.size_mkRow,
+    Int.ofNat_eq_natCast, Int.natCast_inj]
+
+example : Gen.newMatrix 0 3 = some (#[], some "errInvalidRowSize") := C17m_newMatrix_rows 0 3 (by decide)
+example : Gen.newMatrix 2 (-1) = some (#[], some "errInvalidColSize") := C17m_newMatrix_cols 2 (-1) (by decide) (by decide)
+
 end RSV.Props.C17submatrix
 
 #print axioms RSV.Props.C17submatrix.C17m_SubMatrix
@@ -82,3 +107,6 @@ end RSV.Props.C17submatrix
 #print axioms RSV.Props.C17submatrix.C17m_identityMatrix
 #print axioms RSV.Props.C17submatrix.C17m_Augment
 #print axioms RSV.Props.C17submatrix.C17m_Augment_size
+#print axioms RSV.Props.C17submatrix.C17m_newMatrix_rows
+#print axioms RSV.Props.C17submatrix.C17m_newMatrix_cols
+#print axioms RSV.Props.C17submatrix.C17m_IsSquare
